@@ -46,16 +46,21 @@ theorem entered_of_entry (c : RCfg) (hq : Quiet c) (s : FS) (hg : Good s) (r : R
 theorem entered_updEntry (s s1 : FS) (fr : Fr) (h : Entered s s1 fr) : Entered s (updEntry s1) fr :=
   ⟨h.inC, h.outC, h.stack, h.sc, ⟨h.good.scSet, h.good.en, h.good.ds⟩, h.orig⟩
 
+def setDisp (s : FS) (n : Nat) : FS := { s with dispDepth := n }
+
+theorem setDisp_self (s : FS) : setDisp s s.dispDepth = s := by cases s; rfl
+theorem setDisp_succ (s : FS) : setDisp s (s.dispDepth + 1) = updEntry s := rfl
+
 theorem exit_of_entered (c : RCfg) (s s1 : FS) (fr : Fr) (h : Entered s s1 fr) (hg : Good s) (r : Rec)
     (ht : r.type = 1) :
-    fsExit c (account s1 r) = { s with dispDepth := s1.dispDepth } ∧
+    fsExit c (account s1 r) = setDisp s s1.dispDepth ∧
     exitStep c (account s1 r) r false =
-      (if fr.norecord then ({ s with dispDepth := s1.dispDepth }, [])
-       else ({ s with dispDepth := s1.dispDepth - 1 }, [shown r (s1.dispDepth - 1)])) := by
+      (if fr.norecord then (setDisp s s1.dispDepth, [])
+       else (setDisp s (s1.dispDepth - 1), [shown r (s1.dispDepth - 1)])) := by
   obtain ⟨a1, a2, a3, a4, a5, a6, a7, a8, a9⟩ := account_fields s1 r h.good.scSet (by omega)
   have htop : topFr c (account s1 r) = fr := by simp [topFr, a6, h.stack]
-  have hx : fsExit c (account s1 r) = { s with dispDepth := s1.dispDepth } := by
-    apply fs_ext <;> simp [fsExit, topFr, a6, h.stack, a3, a4, a1, a2, a7, a8, a9, h.inC, h.outC, h.sc,
+  have hx : fsExit c (account s1 r) = setDisp s s1.dispDepth := by
+    apply fs_ext <;> simp [setDisp, fsExit, topFr, a6, h.stack, a3, a4, a1, a2, a7, a8, a9, h.inC, h.outC, h.sc,
       h.good.en, h.good.ds, h.orig, ht, hg.scSet, hg.en, hg.ds]
     · cases fr.filtered <;> simp
     · cases fr.filtered <;> cases fr.notrace <;> simp
@@ -67,7 +72,7 @@ theorem exit_of_entered (c : RCfg) (s s1 : FS) (fr : Fr) (h : Entered s s1 fr) (
   | false =>
     simp only [Bool.not_true, Bool.or_self, Bool.false_eq_true, ↓reduceIte]
     refine Prod.ext ?_ ?_
-    · apply fs_ext <;> simp [fsExit, topFr, updExit, a6, h.stack, a3, a4, a1, a2, a7, a8, a9, h.inC, h.outC, h.sc,
+    · apply fs_ext <;> simp [setDisp, fsExit, topFr, updExit, a6, h.stack, a3, a4, a1, a2, a7, a8, a9, h.inC, h.outC, h.sc,
         h.good.en, h.good.ds, h.orig, ht, hg.scSet, hg.en, hg.ds]
       · cases fr.filtered <;> simp
       · cases fr.filtered <;> cases fr.notrace <;> simp
@@ -128,5 +133,248 @@ theorem checkSkip_sound (c : RCfg) (hq : Quiet c) (s : FS) (r : Rec) (ht : r.typ
                 simp only [hd, Option.isSome_none, Bool.false_eq_true, ↓reduceIte, Option.getD_none] at h ⊢
                 simp only [Bool.or_eq_true, decide_eq_true_eq] at h
                 rcases h with h | h <;> simp [h]
+
+/-! ### the replay machine -/
+
+def runBst (c : RCfg) : RS → List Rec → RS × List Rec
+  | s, [] => (s, [])
+  | s, r :: rest => ((runBst c (stepB c s r).1 rest).1, (stepB c s r).2 ++ (runBst c (stepB c s r).1 rest).2)
+
+def flushPend (s : RS) : List Rec :=
+  match s.pend with
+  | some (e, d) => [shown e d]
+  | none => []
+
+theorem runB_eq (c : RCfg) (s : RS) (rs : List Rec) :
+    runB c s rs = (runBst c s rs).2 ++ flushPend (runBst c s rs).1 := by
+  induction rs generalizing s with
+  | nil =>
+    simp only [runB, runBst, flushPend, List.nil_append]
+    cases s.pend with
+    | none => rfl
+    | some p => cases p; rfl
+  | cons r rest ih => simp [runB, runBst, ih, List.append_assoc]
+
+theorem runBst_append (c : RCfg) (s : RS) (a b : List Rec) :
+    runBst c s (a ++ b) =
+      ((runBst c (runBst c s a).1 b).1, (runBst c s a).2 ++ (runBst c (runBst c s a).1 b).2) := by
+  induction a generalizing s with
+  | nil => simp [runBst]
+  | cons r rest ih => simp [runBst, ih, List.append_assoc]
+
+theorem runBst_cons (c : RCfg) (s : RS) (r : Rec) (rs : List Rec) :
+    runBst c s (r :: rs) = ((runBst c (stepB c s r).1 rs).1, (stepB c s r).2 ++ (runBst c (stepB c s r).1 rs).2) := rfl
+
+theorem runBst_nil (c : RCfg) (s : RS) : runBst c s [] = (s, []) := rfl
+
+theorem isPlt_false (c : RCfg) (hnl : c.noLibcall = false) (r : Rec) : isPlt c r = false := by
+  simp [isPlt, hnl]
+
+theorem stepBmain_entry (c : RCfg) (hnl : c.noLibcall = false) (s : FS) (r : Rec) (ht : r.type = 0) :
+    stepBmain c s r =
+      (if !(fsEntry c (account s r) r.addr).2 then (⟨(fsEntry c (account s r) r.addr).1, none⟩, [])
+       else if c.noMerge then
+         (⟨updEntry (fsEntry c (account s r) r.addr).1, none⟩, [shown r (fsEntry c (account s r) r.addr).1.dispDepth])
+       else (⟨(fsEntry c (account s r) r.addr).1, some (r, (fsEntry c (account s r) r.addr).1.dispDepth)⟩, [])) := by
+  simp only [stepBmain, isPlt_false c hnl, Bool.false_eq_true, ↓reduceIte, ht]
+
+theorem stepBmain_exit (c : RCfg) (hnl : c.noLibcall = false) (s : FS) (r : Rec) (ht : r.type = 1) :
+    stepBmain c s r = (⟨(exitStep c (account s r) r false).1, none⟩, (exitStep c (account s r) r false).2) := by
+  simp only [stepBmain, isPlt_false c hnl, Bool.false_eq_true, ↓reduceIte, ht]
+  rw [if_neg (by decide : ¬ (1 : Nat) = 0)]
+
+theorem stepB_pend_deeper (c : RCfg) (hnl : c.noLibcall = false) (s : FS) (e : Rec) (dd : Nat) (r : Rec)
+    (hd : e.depth < r.depth) (ht : r.type ≤ 1) :
+    stepB c ⟨s, some (e, dd)⟩ r =
+      (if checkSkip c s r then
+         (if !(if r.type = 0 then (fsEntry c (account s r) r.addr).1 else fsExit c (account s r)).enabled then
+            (⟨updEntry (if r.type = 0 then (fsEntry c (account s r) r.addr).1 else fsExit c (account s r)), none⟩,
+             [shown e dd])
+          else (⟨if r.type = 0 then (fsEntry c (account s r) r.addr).1 else fsExit c (account s r), some (e, dd)⟩, []))
+       else ((stepBmain c (updEntry s) r).1, shown e dd :: (stepBmain c (updEntry s) r).2)) := by
+  have h1 : ¬ r.depth ≤ e.depth := by omega
+  have h3 : ¬ r.type = 3 := by omega
+  simp only [stepB, h1, ↓reduceIte, h3, isPlt_false c hnl, Bool.false_and, Bool.false_or]
+  by_cases hk : checkSkip c s r = true
+  · simp only [hk, ↓reduceIte]
+    by_cases h0 : r.type = 0
+    · simp [h0]
+    · have h1' : r.type = 1 := by omega
+      simp [h0, h1']
+  · simp [hk]
+
+theorem stepB_pend_leaf (c : RCfg) (s : FS) (e : Rec) (dd : Nat) (r : Rec) (hd : r.depth = e.depth)
+    (ht : r.type = 1) :
+    stepB c ⟨s, some (e, dd)⟩ r = (⟨fsExit c (account s r), none⟩, [shown e dd, shown r dd]) := by
+  simp [stepB, hd, ht]
+
+def B1 (c : RCfg) (evs : Nat → List Rec) (sp : Env → Nat → List Rec) : Prop :=
+  ∀ d s, Good s → runBst c ⟨s, none⟩ (evs d) = (⟨s, none⟩, sp (envOf s) s.dispDepth)
+
+def B2 (c : RCfg) (evs : Nat → List Rec) (sp : Env → Nat → List Rec) : Prop :=
+  ∀ d s e dd, Good s → e.depth < d → s.dispDepth = dd →
+    (runBst c ⟨s, some (e, dd)⟩ (evs d) = (⟨s, some (e, dd)⟩, []) ∧ sp (envOf s) (dd + 1) = []) ∨
+    runBst c ⟨s, some (e, dd)⟩ (evs d) = (⟨updEntry s, none⟩, shown e dd :: sp (envOf s) (dd + 1))
+
+theorem good_updEntry (s : FS) (h : Good s) : Good (updEntry s) := ⟨h.scSet, h.en, h.ds⟩
+
+mutual
+theorem both_call (c : RCfg) (hq : Quiet c) (hnl : c.noLibcall = false) : ∀ (x : Call),
+    B1 c (fun d => evCall d x) (fun E d => specCall c E d x) ∧
+    B2 c (fun d => evCall d x) (fun E d => specCall c E d x)
+  | .node f t0 t1 kids => by
+    obtain ⟨k1, k2⟩ := both_calls c hq hnl kids
+    -- facts about the ENTRY / EXIT of this call from a good state
+    have key : ∀ (d : Nat) (s : FS), Good s →
+        ∃ (p1 : FS) (fr : Fr), p1 = (fsEntry c (account s { time := t0, type := 0, depth := d, addr := f }) f).1 ∧
+          Entered s p1 fr ∧
+          (fsEntry c (account s { time := t0, type := 0, depth := d, addr := f }) f).2 = (visit c (envOf s) f).1 ∧
+          envOf p1 = (visit c (envOf s) f).2 ∧ p1.dispDepth = s.dispDepth ∧ fr.norecord = !(visit c (envOf s) f).1 := by
+      intro d s hg
+      obtain ⟨h1, h2, h3, h4, h5⟩ := entered_of_entry c hq s hg { time := t0, type := 0, depth := d, addr := f } rfl
+      exact ⟨_, _, rfl, h1, h2, h3, h4, h5⟩
+    have hB1 : B1 c (fun d => evCall d (.node f t0 t1 kids)) (fun E d => specCall c E d (.node f t0 t1 kids)) := by
+      intro d s hg
+      obtain ⟨p1, fr, hp1, hE, hp2, henv, hdd, hnr⟩ := key d s hg
+      have hX := exit_of_entered c s p1 fr hE hg { time := t1, type := 1, depth := d, addr := f } rfl
+      have hXu := exit_of_entered c s (updEntry p1) fr (entered_updEntry s p1 fr hE) hg
+        { time := t1, type := 1, depth := d, addr := f } rfl
+      simp only [evCall, runBst_append, List.singleton_append, runBst_cons, runBst_nil, specCall]
+      have hEs : stepB c ⟨s, none⟩ { time := t0, type := 0, depth := d, addr := f } =
+          stepBmain c s { time := t0, type := 0, depth := d, addr := f } := rfl
+      rw [hEs, stepBmain_entry c hnl s _ rfl, ← hp1, hp2]
+      cases hv : (visit c (envOf s) f).1 with
+      | false =>
+        rw [hv] at hnr
+        simp only [Bool.not_false, ↓reduceIte]
+        rw [k1 (d + 1) p1 hE.good]
+        simp only
+        have : stepB c ⟨p1, none⟩ { time := t1, type := 1, depth := d, addr := f } =
+            stepBmain c p1 { time := t1, type := 1, depth := d, addr := f } := rfl
+        rw [this, stepBmain_exit c hnl p1 _ rfl, hX.2, hnr]
+        simp only [Bool.not_false, ↓reduceIte, hdd, setDisp_self, henv, hv, Bool.false_eq_true,
+          List.nil_append, List.append_nil]
+      | true =>
+        rw [hv] at hnr
+        simp only [Bool.not_true, Bool.false_eq_true, ↓reduceIte]
+        have hXmain : ∀ q : FS, stepB c ⟨q, none⟩ { time := t1, type := 1, depth := d, addr := f } =
+            stepBmain c q { time := t1, type := 1, depth := d, addr := f } := fun _ => rfl
+        have hfin : (exitStep c (account (updEntry p1) { time := t1, type := 1, depth := d, addr := f })
+            { time := t1, type := 1, depth := d, addr := f } false) =
+            (s, [shown { time := t1, type := 1, depth := d, addr := f } s.dispDepth]) := by
+          rw [hXu.2, hnr]
+          have : (updEntry p1).dispDepth = s.dispDepth + 1 := by simp [updEntry, hdd]
+          simp only [Bool.not_true, Bool.false_eq_true, ↓reduceIte, this, Nat.add_sub_cancel, setDisp_self]
+        cases hm : c.noMerge with
+        | true =>
+          simp only [↓reduceIte]
+          rw [k1 (d + 1) (updEntry p1) (good_updEntry p1 hE.good)]
+          simp only
+          rw [hXmain, stepBmain_exit c hnl _ _ rfl, hfin]
+          have he : envOf (updEntry p1) = (visit c (envOf s) f).2 := henv
+          have hd1 : (updEntry p1).dispDepth = s.dispDepth + 1 := by simp [updEntry, hdd]
+          rw [he, hd1]
+          simp [hdd, shown]
+        | false =>
+          simp only [Bool.false_eq_true, ↓reduceIte]
+          rcases k2 (d + 1) p1 { time := t0, type := 0, depth := d, addr := f } s.dispDepth hE.good
+            (by simp) hdd with ⟨hst, hnil⟩ | hfl
+          · rw [hdd, hst]
+            simp only
+            rw [stepB_pend_leaf c p1 { time := t0, type := 0, depth := d, addr := f } s.dispDepth
+              { time := t1, type := 1, depth := d, addr := f } rfl rfl, hX.1, hdd, setDisp_self]
+            rw [henv] at hnil
+            simp [hnil, shown]
+          · rw [hdd, hfl]
+            simp only
+            rw [hXmain, stepBmain_exit c hnl _ _ rfl, hfin]
+            simp [henv, shown]
+    refine ⟨hB1, ?_⟩
+    intro d s e dd hg hlt hsd
+    obtain ⟨p1, fr, hp1, hE, hp2, henv, hdd, hnr⟩ := key d s hg
+    have hXu := exit_of_entered c s (updEntry p1) fr (entered_updEntry s p1 fr hE) hg
+      { time := t1, type := 1, depth := d, addr := f } rfl
+    have hX := exit_of_entered c s p1 fr hE hg { time := t1, type := 1, depth := d, addr := f } rfl
+    by_cases hk : checkSkip c s { time := t0, type := 0, depth := d, addr := f } = true
+    · -- the ENTRY is skipped by fstack_skip: it is one fstack_entry rejects
+      have hv : (visit c (envOf s) f).1 = false := checkSkip_sound c hq s _ rfl hk
+      rw [hv] at hnr
+      have hspec : ∀ n, specCall c (envOf s) n (.node f t0 t1 kids) = specCalls c (visit c (envOf s) f).2 n kids := by
+        intro n; simp [specCall, hv]
+      have hEstep : stepB c ⟨s, some (e, dd)⟩ { time := t0, type := 0, depth := d, addr := f } =
+          (⟨p1, some (e, dd)⟩, []) := by
+        rw [stepB_pend_deeper c hnl s e dd _ hlt (by simp), hk]
+        simp only [↓reduceIte, ← hp1, hE.good.en, Bool.not_true, Bool.false_eq_true]
+      have hexitU : (exitStep c (account (updEntry p1) { time := t1, type := 1, depth := d, addr := f })
+          { time := t1, type := 1, depth := d, addr := f } false) = (updEntry s, []) := by
+        rw [hXu.2, hnr]
+        have : (updEntry p1).dispDepth = s.dispDepth + 1 := by simp [updEntry, hdd]
+        simp only [Bool.not_false, ↓reduceIte, this, setDisp_succ]
+      simp only [evCall, runBst_append, List.singleton_append, runBst_cons, runBst_nil, hEstep, hspec]
+      rcases k2 (d + 1) p1 e dd hE.good (by omega) (by rw [hdd, hsd]) with ⟨hst, hnil⟩ | hfl
+      · rw [hst]
+        simp only
+        rw [henv] at hnil
+        rw [stepB_pend_deeper c hnl p1 e dd _ hlt (by simp)]
+        by_cases hk2 : checkSkip c p1 { time := t1, type := 1, depth := d, addr := f } = true
+        · left
+          simp only [hk2, ↓reduceIte]
+          rw [if_neg (by decide : ¬ (1 : Nat) = 0), hX.1, hdd, setDisp_self, hg.en]
+          simp [hnil]
+        · right
+          simp only [hk2, Bool.false_eq_true, ↓reduceIte]
+          rw [stepBmain_exit c hnl _ _ rfl, hexitU]
+          simp [hnil]
+      · right
+        rw [hfl]
+        simp only
+        have : stepB c ⟨updEntry p1, none⟩ { time := t1, type := 1, depth := d, addr := f } =
+            stepBmain c (updEntry p1) { time := t1, type := 1, depth := d, addr := f } := rfl
+        rw [this, stepBmain_exit c hnl _ _ rfl, hexitU, henv]
+        simp
+    · -- the ENTRY is not skipped: the pending line is printed and the main loop takes over
+      right
+      have h1 := hB1 d (updEntry s) (good_updEntry s hg)
+      simp only [evCall, List.singleton_append, List.cons_append, List.nil_append, runBst_cons] at h1 ⊢
+      rw [stepB_pend_deeper c hnl s e dd _ hlt (by simp)]
+      simp only [hk, Bool.false_eq_true, ↓reduceIte]
+      have hm : stepB c ⟨updEntry s, none⟩ { time := t0, type := 0, depth := d, addr := f } =
+          stepBmain c (updEntry s) { time := t0, type := 0, depth := d, addr := f } := rfl
+      rw [hm] at h1
+      have h2 := congrArg Prod.fst h1
+      have h3 := congrArg Prod.snd h1
+      simp only at h2 h3
+      refine Prod.ext h2 ?_
+      simp only [List.cons_append]
+      rw [h3]
+      simp [updEntry, envOf, hsd]
+theorem both_calls (c : RCfg) (hq : Quiet c) (hnl : c.noLibcall = false) : ∀ (xs : Calls),
+    B1 c (fun d => evCalls d xs) (fun E d => specCalls c E d xs) ∧
+    B2 c (fun d => evCalls d xs) (fun E d => specCalls c E d xs)
+  | .nil => by
+    refine ⟨fun d s hg => rfl, fun d s e dd hg hlt hsd => Or.inl ⟨rfl, rfl⟩⟩
+  | .cons x rest => by
+    obtain ⟨x1, x2⟩ := both_call c hq hnl x
+    obtain ⟨r1, r2⟩ := both_calls c hq hnl rest
+    refine ⟨?_, ?_⟩
+    · intro d s hg
+      simp only [evCalls, runBst_append, specCalls]
+      rw [x1 d s hg]
+      simp only
+      rw [r1 d s hg]
+    · intro d s e dd hg hlt hsd
+      simp only [evCalls, runBst_append, specCalls]
+      rcases x2 d s e dd hg hlt hsd with ⟨hst, hnil⟩ | hfl
+      · rw [hst]
+        simp only
+        rcases r2 d s e dd hg hlt hsd with ⟨hst2, hnil2⟩ | hfl2
+        · left; rw [hst2]; simp [hnil, hnil2]
+        · right; rw [hfl2]; simp [hnil]
+      · right
+        rw [hfl]
+        simp only
+        rw [r1 d (updEntry s) (good_updEntry s hg)]
+        simp [updEntry, envOf, hsd]
+end
 
 end Uft.Fstack
